@@ -494,9 +494,9 @@ Definition fresh_flags (XS : list var) (s : bstate) : Prop :=
 
 (* a block may write: the program's variables, the helpers of the current context, loop flags outside the protected
    range [klo, loop counter), and -- through calls -- mangled names and return registers *)
-Definition untouched (XS : list var) (s : bstate) (b b' : shenv) : Prop :=
+Definition untouched (XS : list var) (s s' : bstate) (b b' : shenv) : Prop :=
   forall n, (forall x, In x XS -> n <> user_name s x) -> (forall k, n <> helper_name s k) ->
-            (forall k, (k < klo \/ b_for_counter s <= k)%nat -> n <> fname k) ->
+            (forall k, (k < klo \/ b_for_counter s <= k < b_for_counter s')%nat -> n <> fname k) ->
             (forall c x, (c < mlo)%nat -> n <> mangled c x) -> (forall i, n <> rv_name i) -> sh_get n b' = sh_get n b.
 
 (* the oracle refines the source side of calls: results arrive in the return registers, the caller's variables
@@ -504,30 +504,41 @@ Definition untouched (XS : list var) (s : bstate) (b b' : shenv) : Prop :=
 Definition call_refines : Prop :=
   forall XS f vals sg rvals sg1 o b s,
     scall XS f vals sg rvals sg1 o -> env_ok sg -> ctx_ok XS sg b s -> fresh_flags XS s ->
-    exists b1, call f (map text vals) b = Some (b1, o) /\ ctx_ok XS sg1 b1 s /\ untouched XS s b b1 /\
+    exists b1, call f (map text vals) b = Some (b1, o) /\ ctx_ok XS sg1 b1 s /\ untouched XS s s b b1 /\
                (forall i v, nth_error rvals i = Some v -> sh_get (rv_name i) b1 = text v).
 Hypothesis call_ok : call_refines.
 
-Lemma untouched_refl XS s b : untouched XS s b b.
+Lemma untouched_refl XS s s' b : untouched XS s s' b b.
 Proof. intros n _ _ _ _ _. reflexivity. Qed.
 
-Lemma untouched_trans XS s s1 ls b b1 b2 :
-  cext s s1 ls -> (b_for_counter s <= b_for_counter s1)%nat -> untouched XS s b b1 -> untouched XS s1 b1 b2 -> untouched XS s b b2.
+(* a block inside a longer stretch of code *)
+Lemma untouched_gen XS s0 s s' s0' ls b b' :
+  cext s0 s ls -> (b_for_counter s' <= b_for_counter s0')%nat -> untouched XS s s' b b' -> untouched XS s0 s0' b b'.
 Proof.
-  intros E Hc U1 U2 n Hu Hh Hf Hm Hr. rewrite U2.
-  - apply U1; assumption.
+  intros E M U n Hu Hh Hf Hm Hr. pose proof (cx_mono _ _ _ E) as M0. apply U.
   - intros x Hx. rewrite (user_name_cext _ _ _ x E). apply Hu. exact Hx.
-  - intros k. rewrite (helper_name_cext _ _ _ k E). apply Hh.
+  - intro k. rewrite (helper_name_cext _ _ _ k E). apply Hh.
   - intros k Hk. apply Hf. lia.
   - exact Hm.
   - exact Hr.
+Qed.
+
+Lemma untouched_compose XS s s' b b1 b2 : untouched XS s s' b b1 -> untouched XS s s' b1 b2 -> untouched XS s s' b b2.
+Proof. intros U1 U2 n Hu Hh Hf Hm Hr. rewrite (U2 n Hu Hh Hf Hm Hr). exact (U1 n Hu Hh Hf Hm Hr). Qed.
+
+Lemma untouched_trans XS s s1 s2 ls b b1 b2 :
+  cext s s1 ls -> (b_for_counter s1 <= b_for_counter s2)%nat -> untouched XS s s1 b b1 -> untouched XS s1 s2 b1 b2 -> untouched XS s s2 b b2.
+Proof.
+  intros E M U1 U2. apply (untouched_compose XS s s2 b b1 b2).
+  - exact (untouched_gen XS s s s1 s2 [] b b1 (cext_refl s) M U1).
+  - exact (untouched_gen XS s s1 s2 s2 ls b1 b2 E (le_n _) U2).
 Qed.
 
 (* assignment and print once more, with what they leave untouched *)
 Lemma assign_step XS sg x e s u s' b v :
   pure e = true -> t_stmt bash_conv (SAssign [x] [e]) s = TOk u s' -> peval sg e = Some v -> env_ok sg -> side XS e -> In x XS ->
   ctx_ok XS sg b s ->
-  exists ls b', cext s s' ls /\ exec_outs b ls = Some (b', []) /\ ctx_ok XS (supd sg x v) b' s' /\ untouched XS s b b'.
+  exists ls b', cext s s' ls /\ exec_outs b ls = Some (b', []) /\ ctx_ok XS (supd sg x v) b' s' /\ untouched XS s s' b b'.
 Proof.
   intros Hp Ht Hv Henv [Hl [Hn Hin]] Hx [Cf Hrep Hhy Hinj].
   pose proof Ht as Ht0.
@@ -566,7 +577,7 @@ Qed.
 Lemma print_step XS sg es s u s' b vals :
   forallb pure es = true -> t_stmt bash_conv (SPrint es) s = TOk u s' -> pevals sg es = Some vals -> env_ok sg ->
   (forall e, In e es -> side XS e) -> ctx_ok XS sg b s ->
-  exists ls b', cext s s' ls /\ exec_outs b ls = Some (b', join [32] (map text vals) ++ [10]) /\ ctx_ok XS sg b' s' /\ untouched XS s b b'.
+  exists ls b', cext s s' ls /\ exec_outs b ls = Some (b', join [32] (map text vals) ++ [10]) /\ ctx_ok XS sg b' s' /\ untouched XS s s' b b'.
 Proof.
   intros Hp Ht Hv Henv Hes [Cf Hrep Hhy Hinj].
   cbn [t_stmt] in Ht. mb Ht as vs s1 H1 H2. mu H2. subst s'.
@@ -705,7 +716,7 @@ Qed.
 
 Definition simP (XS : list var) (sg : senv) (body : list stmt) (sg' : senv) (out : bytes) (g : sig) : Prop :=
   forall s u s' b, go_fix body s = TOk u s' -> frag2_all body = true -> env_ok sg -> ctx_ok XS sg b s -> fresh_flags XS s ->
-  exists X b', cext s s' X /\ ctx_ok XS sg' b' s' /\ untouched XS s b b' /\
+  exists X b', cext s s' X /\ ctx_ok XS sg' b' s' /\ untouched XS s s' b b' /\
                forall L rest res, after g b' L rest res -> lruns b L (X ++ rest) (prepend out res).
 
 Lemma all_e3 (l : list stmt) : Forall stmt_e3 l.
@@ -732,7 +743,7 @@ Proof.
   destruct (assign_step XS sg x e s u1 s1 b v Hp H1 Hv Henv Hs Hx Hc) as (l1 & b1 & E1 & R1 & C1 & U1).
   destruct (IH s1 u s' b1 H2 Hfr Henv' C1 (fresh_cext _ _ _ _ E1 Hfl)) as (X2 & b2 & E2 & C2 & U2 & Hk).
   exists (l1 ++ X2), b2. split; [eapply cext_trans; eassumption|]. split; [exact C2|].
-  split; [exact (untouched_trans XS s s1 l1 b b1 b2 E1 (for_counter_mono _ _ _ _ H1) U1 U2)|].
+  split; [exact (untouched_trans XS s s1 s' l1 b b1 b2 E1 (cx_mono _ _ _ E2) U1 U2)|].
   intros L rest res H. rewrite <- app_assoc. rewrite <- (prepend_nil (prepend out res)). exact (lruns_straight l1 b b1 [] L _ _ R1 (Hk L rest res H)).
 Qed.
 
@@ -745,7 +756,7 @@ Proof.
   destruct (print_step XS sg es s u1 s1 b vals Hp H1 Hv Henv Hs Hc) as (l1 & b1 & E1 & R1 & C1 & U1).
   destruct (IH s1 u s' b1 H2 Hfr Henv C1 (fresh_cext _ _ _ _ E1 Hfl)) as (X2 & b2 & E2 & C2 & U2 & Hk).
   exists (l1 ++ X2), b2. split; [eapply cext_trans; eassumption|]. split; [exact C2|].
-  split; [exact (untouched_trans XS s s1 l1 b b1 b2 E1 (for_counter_mono _ _ _ _ H1) U1 U2)|].
+  split; [exact (untouched_trans XS s s1 s' l1 b b1 b2 E1 (cx_mono _ _ _ E2) U1 U2)|].
   intros L rest res H. rewrite <- app_assoc.
   replace (prepend (join [32] (map text vals) ++ [10] ++ out) res) with (prepend (join [32] (map text vals) ++ [10]) (prepend out res))
     by (rewrite prepend_app, <- app_assoc; reflexivity).
@@ -761,7 +772,7 @@ Proof. intros Hc [n Hn]. exists (S n). cbn [lrun]. rewrite Hc, Hn. destruct res;
 Lemma call_args XS sg f args s va s1 b vals rvals sg1 o :
   forallb pure args = true -> args_fix args s = TOk va s1 -> pevals sg args = Some vals -> env_ok sg ->
   (forall e, In e args -> side XS e) -> ctx_ok XS sg b s -> fresh_flags XS s -> scall XS f vals sg rvals sg1 o ->
-  exists l1 b2, cext s s1 l1 /\ ctx_ok XS sg1 b2 s1 /\ untouched XS s b b2 /\
+  exists l1 b2, cext s s1 l1 /\ ctx_ok XS sg1 b2 s1 /\ untouched XS s s1 b b2 /\
      (forall i v, nth_error rvals i = Some v -> sh_get (rv_name i) b2 = text v) /\
      forall L rest res, lruns b2 L rest res -> lruns b L (l1 ++ [LCall f va] ++ rest) (prepend o res).
 Proof.
@@ -802,7 +813,7 @@ Proof.
   assert (cext s sA (l1 ++ [LCall f va])) as CA by (eapply cext_trans; [exact C1|apply cext_line]).
   destruct (IH sA u s' b2 H2 Hfr Henv1 (ctx_cext _ _ _ _ _ _ (cext_line _ s1) Hc2) (fresh_cext _ _ _ _ CA Hfl)) as (X2 & b3 & E2 & C3 & U3 & Hk).
   exists ((l1 ++ [LCall f va]) ++ X2), b3. split; [eapply cext_trans; eassumption|]. split; [exact C3|].
-  split; [exact (untouched_trans XS s sA _ b b2 b3 CA (cx_mono _ _ _ CA) U2 U3)|].
+  split; [exact (untouched_trans XS s sA s' _ b b2 b3 CA (cx_mono _ _ _ E2) (untouched_gen XS s s s1 sA [] b b2 (cext_refl s) (le_n _) U2) U3)|].
   intros L rest res H. rewrite <- !app_assoc. rewrite <- prepend_app. apply Hk1. exact (Hk L rest res H).
 Qed.
 
@@ -849,9 +860,9 @@ Proof.
   exists (((l1 ++ [LCall f va] ++ [LAssign hn (RAtom (ARef (rv_name 0)))]) ++ [LAssign xn (RAtom (ARef hn))]) ++ X2), b5.
   split; [eapply cext_trans; eassumption|]. split; [exact C5|].
   split.
-  { apply (untouched_trans XS s sF _ b b4 b5 CF (cx_mono _ _ _ CF)); [|exact U5].
+  { apply (untouched_trans XS s sF s' _ b b4 b5 CF (cx_mono _ _ _ E2)); [|exact U5].
     intros n Hu Hh Hf Hm Hr. unfold b4, b3. rewrite sh_get_set_other; [|rewrite Hxn; intro Heq; exact (Hu x Hx Heq)].
-    rewrite sh_get_set_other; [|rewrite Hhn; intro Heq; exact (Hh _ Heq)]. exact (U2 n Hu Hh Hf Hm Hr). }
+    rewrite sh_get_set_other; [|rewrite Hhn; intro Heq; exact (Hh _ Heq)]. apply (untouched_gen XS s s s1 sF [] b b2 (cext_refl s)); [unfold sF; cbn [add_line b_for_counter]; rewrite (helper_assign_forc _ _ _ _ EH); apply le_n|exact U2| | | | |]; assumption. }
   intros L rest res H. rewrite <- !app_assoc. rewrite <- prepend_app. apply Hk1.
   rewrite <- (prepend_nil (prepend out res)).
   apply (lruns_straight [LAssign hn (RAtom (ARef (rv_name 0))); LAssign xn (RAtom (ARef hn))] b2 b4 [] L); [|exact (Hk L rest res H)].
@@ -908,7 +919,7 @@ Proof. intro H. destruct b as [|x r]; [unfold tb in H; mu H; subst; apply le_n|e
 
 Lemma lrun_body XS sg body sgm outm g s u s1 b :
   tb body s = TOk u s1 -> frag2_all body = true -> simP XS sg body sgm outm g -> env_ok sg -> ctx_ok XS sg b s -> fresh_flags XS s ->
-  exists B b', cext s s1 B /\ cl3 B /\ ctx_ok XS sgm b' s1 /\ untouched XS s b b' /\
+  exists B b', cext s s1 B /\ cl3 B /\ ctx_ok XS sgm b' s1 /\ untouched XS s s1 b b' /\
                forall L rest res, after g b' L rest res -> lruns b L (B ++ rest) (prepend outm res).
 Proof.
   intros Ht Hf Hsim Henv Hc Hfl. destruct body as [|x r].
@@ -925,7 +936,7 @@ Qed.
 
 Lemma lwalk_else XS sg sgm outm g els s s1 b :
   else_part els s = TOk tt s1 -> frag2_all els = true -> simP XS sg els sgm outm g -> env_ok sg -> ctx_ok XS sg b s -> fresh_flags XS s ->
-  exists T b', cext s (add_line LFi s1) T /\ tail3 T /\ ctx_ok XS sgm b' (add_line LFi s1) /\ untouched XS s b b' /\
+  exists T b', cext s (add_line LFi s1) T /\ tail3 T /\ ctx_ok XS sgm b' (add_line LFi s1) /\ untouched XS s (add_line LFi s1) b b' /\
                forall L rest res, after g b' L rest res -> lseeks b L (T ++ rest) (prepend outm res).
 Proof.
   intros He Hf Hsim Henv Hc Hfl. destruct els as [|x r].
@@ -942,7 +953,7 @@ Proof.
     split; [eapply cext_trans; [apply cext_line|]; eapply cext_trans; [exact EB|apply cext_line]|].
     split; [apply tail3_else; exact CB|].
     split; [exact (ctx_cext _ _ _ _ _ _ (cext_line LFi s1) Cc)|].
-    split; [exact (untouched_trans XS s (add_line LElse s) [LElse] b b b' (cext_line LElse s) (le_n _) (untouched_refl XS s b) U)|].
+    split; [exact (untouched_gen XS s (add_line LElse s) s1 (add_line LFi s1) [LElse] b b' (cext_line LElse s) (le_n _) U)|].
     intros L rest res Hr.
     assert (after g b' L ([LFi] ++ rest) res) as Hr1 by exact (after_tail g b' L [LFi] rest res tail3_fi Hr).
     destruct (Hk L ([LFi] ++ rest) res Hr1) as [f Hf']. exists (S f). cbn [app lrun]. rewrite <- app_assoc. exact Hf'.
@@ -956,7 +967,7 @@ Lemma lwalk XS sgm outm g els : frag2_all els = true ->
   map (atom_text b) cs = map bool_text bools ->
   env_ok sg -> ctx_ok XS sg b s -> fresh_flags XS s ->
   simP XS sg (pick bools (map snd elifs) els) sgm outm g ->
-  exists T b', cext s (add_line LFi s2) T /\ tail3 T /\ ctx_ok XS sgm b' (add_line LFi s2) /\ untouched XS s b b' /\
+  exists T b', cext s (add_line LFi s2) T /\ tail3 T /\ ctx_ok XS sgm b' (add_line LFi s2) /\ untouched XS s (add_line LFi s2) b b' /\
                forall L rest res, after g b' L rest res -> lseeks b L (T ++ rest) (prepend outm res).
 Proof.
   intros Hfe. induction elifs as [|[c body] r IH]; intros Hf cs bools s s1 s2 sg b Lc Lb Hb He Ht Henv Hc Hfl Hsim.
@@ -978,7 +989,7 @@ Proof.
       split; [eapply cext_trans; [exact Ese|]; eapply cext_trans; [exact EB|exact ET]|].
       split; [apply tail3_elif; assumption|].
       split; [exact (ctx_cext _ _ _ _ _ _ ET Cc)|].
-      split; [exact (untouched_trans XS s se _ b b b' Ese (le_n _) (untouched_refl XS s b) U)|].
+      split; [exact (untouched_gen XS s se sm (add_line LFi s2) _ b b' Ese (cx_mono _ _ _ ET) U)|].
       intros L rest res Hr. pose proof (after_tail g b' L T rest res CT Hr) as Hr1.
       destruct (Hk L (T ++ rest) res Hr1) as [f Hf']. exists (S f). cbn [app lrun].
       rewrite (cond_of_text b v true Hv). rewrite <- app_assoc. exact Hf'.
@@ -992,8 +1003,7 @@ Proof.
       split; [apply tail3_elif; assumption|]. split; [exact Cc|].
       split.
       { assert (cext s sm ([LIf (bs "elif") v] ++ B)) as Esm by (eapply cext_trans; [exact Ese|exact EB]).
-        refine (untouched_trans XS s sm _ b b b' Esm _ (untouched_refl XS s b) U).
-        pose proof (tb_mono _ _ _ _ Hm) as M. exact M. }
+        exact (untouched_gen XS s sm (add_line LFi s2) (add_line LFi s2) _ b b' Esm (le_n _) U). }
       intros L rest res Hr. destruct (Hk L rest res Hr) as [f Hf']. exists (S f). cbn [app lrun].
       rewrite (cond_of_text b v false Hv). rewrite <- app_assoc. destruct CB as [[CB1 _] _]. rewrite CB1.
       destruct CT as [CTO _]. rewrite (t_here T CTO rest). exact Hf'.
@@ -1005,7 +1015,7 @@ Lemma if_construct XS sg c0 b0 elifs els bools sgm outm g s u s1 b :
   pevals sg (c0 :: map fst elifs) = Some (map VBool bools) ->
   simP XS sg (pick bools (b0 :: map snd elifs) els) sgm outm g ->
   env_ok sg -> ctx_ok XS sg b s -> fresh_flags XS s ->
-  exists XI b1, cext s s1 XI /\ ctx_ok XS sgm b1 s1 /\ untouched XS s b b1 /\
+  exists XI b1, cext s s1 XI /\ ctx_ok XS sgm b1 s1 /\ untouched XS s s1 b b1 /\
                 forall L rest res, after g b1 L rest res -> lruns b L (XI ++ rest) (prepend outm res).
 Proof.
   intros H1 Hfrag Hside Hv IHch Henv Hc Hfl.
@@ -1029,7 +1039,7 @@ Proof.
   { rewrite Vts. clear. induction ts as [|t r IH]; [reflexivity|]. cbn [map]. rewrite text_bool, IH. reflexivity. }
   assert (length ts = length elifs) as Lts by (rewrite <- Lcs; rewrite <- (map_length (atom_text bc) cs), Vts', map_length; reflexivity).
   assert (cext s sc Lc) as CLc by (apply cext_of_ext; [exact ELc|pose proof (expr_mono _ _ _ _ E0); pose proof (conds_mono _ _ _ _ Ec); lia]).
-  assert (untouched XS s b bc) as Uc by (intros n _ Hh _ _ _; apply Fc; intros k _; apply Hh).
+  assert (forall sx, untouched XS s sx b bc) as Uc by (intros sx n _ Hh _ _ _; apply Fc; intros k _; apply Hh).
   assert (ctx_ok XS sg bc sc) as Hcc.
   { apply (ctx_ext XS sg bc s sc Lc ELc). constructor; [exact Cf| |exact Ch|exact Ci].
     apply (represents_frame sg b bc s XS (b_var_counter s) Cr Ch). intros n Hn. apply Fc. intros k Hk. apply Hn. lia. }
@@ -1048,7 +1058,7 @@ Proof.
     exists (Lc ++ [LIf (bs "if") a0] ++ B0 ++ T), b1.
     split; [eapply cext_trans; [exact CLc|]; eapply cext_trans; [apply cext_line|]; eapply cext_trans; [exact EB0|exact ET]|].
     split; [exact (ctx_cext _ _ _ _ _ _ ET Cc1)|].
-    split; [exact (untouched_trans XS s sI _ b bc b1 EsI MI Uc U1)|].
+    split; [exact (untouched_trans XS s sI _ _ b bc b1 EsI (Nat.le_trans _ _ _ (cx_mono _ _ _ EB0) (cx_mono _ _ _ ET)) (Uc sI) (untouched_gen XS sI sI sb0 _ [] bc b1 (cext_refl sI) (cx_mono _ _ _ ET) U1))|].
     intros L rest res Hr. pose proof (after_tail g b1 L T rest res CT Hr) as Hr1.
     destruct (Hk0 L (T ++ rest) res Hr1) as [f Hf'].
     assert (lruns bc L (([LIf (bs "if") a0] ++ B0 ++ T) ++ rest) (prepend outm res)) as HrI.
@@ -1064,7 +1074,7 @@ Proof.
     split; [exact Cc1|].
     split.
     { assert (cext s sb0 ((Lc ++ [LIf (bs "if") a0]) ++ B0)) as Esb by (eapply cext_trans; [exact EsI|exact EB0]).
-      refine (untouched_trans XS s sb0 _ b bc b1 Esb _ Uc U1). pose proof (tb_mono _ _ _ _ Eb0). lia. }
+      exact (untouched_trans XS s sb0 _ _ b bc b1 Esb (cx_mono _ _ _ ET) (Uc sb0) U1). }
     intros L rest res Hr. destruct (HkT L rest res Hr) as [f Hf'].
     assert (lruns bc L (([LIf (bs "if") a0] ++ B0 ++ T) ++ rest) (prepend outm res)) as HrI.
     { exists (S f). cbn [app lrun]. change (is_if (bs "if")) with true. cbn iota. rewrite (cond_of_text bc a0 false V0).
@@ -1098,21 +1108,8 @@ Proof.
   intros x w Hx Hw. rewrite sh_get_set_other; [exact (B x w Hx Hw)|exact (proj1 Hfl x k Hx)].
 Qed.
 
-Lemma untouched_weaken XS s0 s ls b b' : cext s0 s ls -> (b_for_counter s0 <= b_for_counter s)%nat -> untouched XS s b b' -> untouched XS s0 b b'.
-Proof.
-  intros E M U n Hu Hh Hf Hm Hr. apply U.
-  - intros x Hx. rewrite (user_name_cext _ _ _ x E). apply Hu. exact Hx.
-  - intro k. rewrite (helper_name_cext _ _ _ k E). apply Hh.
-  - intros k Hk. apply Hf. lia.
-  - exact Hm.
-  - exact Hr.
-Qed.
-
-Lemma untouched_set_flag XS s k v b : (b_for_counter s <= k)%nat -> untouched XS s b (sh_set (fname k) v b).
+Lemma untouched_set_flag XS s s' k v b : (b_for_counter s <= k < b_for_counter s')%nat -> untouched XS s s' b (sh_set (fname k) v b).
 Proof. intros Hk n _ _ Hf _ _. rewrite sh_get_set_other; [reflexivity|apply (Hf k); right; exact Hk]. Qed.
-
-Lemma untouched_compose XS s b b1 b2 : untouched XS s b b1 -> untouched XS s b1 b2 -> untouched XS s b b2.
-Proof. intros U1 U2 n Hu Hh Hf Hm Hr. rewrite (U2 n Hu Hh Hf Hm Hr). exact (U1 n Hu Hh Hf Hm Hr). Qed.
 
 Lemma for_start_cext si : cext si (cv_for_start bstate atom bash_conv si) [LForInit (flag_of si); LWhile].
 Proof. rewrite bash_for_start. constructor; cbn [add_line b_code b_funcs b_func_counter b_for_counter]; [rewrite <- app_assoc; reflexivity|reflexivity|reflexivity|lia]. Qed.
@@ -1126,7 +1123,7 @@ Lemma round_incr XS first incr sg sg1 o1 si sn b :
   simP XS sg (incr_of first incr) sg1 o1 SN -> env_ok sg ->
   ctx_ok XS sg b (cv_for_start bstate atom bash_conv si) -> fresh_flags XS si ->
   (incr <> None -> flag_set b (fname (b_for_counter si)) = negb first) ->
-  exists Rn bF, cext (cv_for_start bstate atom bash_conv si) sn Rn /\ cl3 Rn /\ ctx_ok XS sg1 bF sn /\ untouched XS si b bF /\
+  exists Rn bF, cext (cv_for_start bstate atom bash_conv si) sn Rn /\ cl3 Rn /\ ctx_ok XS sg1 bF sn /\ untouched XS si sn b bF /\
                 (b_for_counter si < b_for_counter sn)%nat /\
                 (incr <> None -> flag_set bF (fname (b_for_counter si)) = true) /\
                 forall L rest res, lruns bF L rest res -> lruns b L (Rn ++ rest) (prepend o1 res).
@@ -1157,9 +1154,9 @@ Proof.
       split; [eapply cext_trans; [exact Eg|exact E2]|]. split; [apply cl3_incr; exact CBi|].
       split; [apply ctx_set_flag; [exact (fresh_cext _ _ _ _ E2 Hfl0)|exact (ctx_cext _ _ _ _ _ _ E2 Cc)]|].
       split.
-      { apply (untouched_compose XS si b b1).
-        - refine (untouched_weaken XS si sg0 _ b b1 (cext_trans _ _ _ _ _ (for_start_cext si) Eg) _ U). assert (b_for_counter sg0 = S (b_for_counter si)) as Es by reflexivity. lia.
-        - apply untouched_set_flag. apply le_n. }
+      { apply (untouched_compose XS si _ b b1).
+        - refine (untouched_gen XS si sg0 _ _ _ b b1 (cext_trans _ _ _ _ _ (for_start_cext si) Eg) _ U). cbn [add_line b_for_counter]. assert (b_for_counter sg0 = S (b_for_counter si)) as Es by reflexivity. lia.
+        - apply untouched_set_flag. cbn [add_line b_for_counter]. lia. }
       split; [cbn [add_line b_for_counter]; exact Mc|]. split; [intros _; apply flag_set_set|].
       intros L rest res [fu Hr]. destruct (Hk L ([LFlagSet f] ++ rest) (prepend [] res)) as [f2 Hf2].
       { cbn [after]. rewrite prepend_nil. exists (S fu). cbn [app lrun]. exact Hr. }
@@ -1175,9 +1172,9 @@ Proof.
       split; [eapply cext_trans; [exact Eg|]; eapply cext_trans; [exact EBi|exact E3]|]. split; [apply cl3_incr; exact CBi|].
       split; [apply ctx_set_flag; [exact (fresh_cext _ _ _ _ E3 (fresh_cext _ _ _ _ EBi Hfl0))|exact (ctx_cext _ _ _ _ _ _ E3 Cc)]|].
       split.
-      { apply (untouched_compose XS si b b1).
-        - refine (untouched_weaken XS si sg0 _ b b1 (cext_trans _ _ _ _ _ (for_start_cext si) Eg) _ U). assert (b_for_counter sg0 = S (b_for_counter si)) as Es by reflexivity. lia.
-        - apply untouched_set_flag. apply le_n. }
+      { apply (untouched_compose XS si _ b b1).
+        - refine (untouched_gen XS si sg0 _ _ _ b b1 (cext_trans _ _ _ _ _ (for_start_cext si) Eg) _ U). cbn [add_line b_for_counter]. assert (b_for_counter sg0 = S (b_for_counter si)) as Es by reflexivity. lia.
+        - apply untouched_set_flag. cbn [add_line b_for_counter]. lia. }
       split; [cbn [add_line b_for_counter]; exact Mc|]. split; [intros _; apply flag_set_set|].
       intros L rest res [fu Hr]. destruct (Hk L ([LFi; LFlagSet f] ++ rest) res) as [f2 Hf2].
       { cbn [after]. exists (S (S fu)). cbn [app lrun]. exact Hr. }
@@ -1187,7 +1184,7 @@ Proof.
     destruct (Hsim sf tt sf b eq_refl eq_refl Henv Hc Hflf) as (X & b1 & Ex & Cc & U & Hk).
     assert (X = []) as -> by (pose proof (cx_code _ _ _ Ex) as Cx; rewrite <- (app_nil_r (b_code sf)) in Cx at 1; apply app_inv_head in Cx; symmetry; exact Cx).
     exists [], b1. split; [apply cext_refl|]. split; [apply cl3_nil|]. split; [exact Cc|].
-    split; [refine (untouched_weaken XS si sf _ b b1 (for_start_cext si) _ U); unfold sf; rewrite for_start_counter; lia|].
+    split; [exact (untouched_gen XS si sf sf sf _ b b1 (for_start_cext si) (le_n _) U)|].
     split; [unfold sf; rewrite for_start_counter; lia|]. split; [intro H; contradiction|].
     intros L rest res Hr. exact (Hk L rest res Hr).
 Qed.
@@ -1206,7 +1203,7 @@ Definition simL (XS : list var) (first : bool) (cond : expr) (incr : option stmt
   forall si sn sc sd vc b, loopT cond incr body si sn sc sd vc -> side XS cond -> env_ok sg ->
   ctx_ok XS sg b (cv_for_start bstate atom bash_conv si) -> fresh_flags XS si ->
   (incr <> None -> flag_set b (fname (b_for_counter si)) = negb first) ->
-  exists R b', cext (cv_for_start bstate atom bash_conv si) sd R /\ cl3 R /\ ctx_ok XS sg' b' sd /\ untouched XS si b b' /\
+  exists R b', cext (cv_for_start bstate atom bash_conv si) sd R /\ cl3 R /\ ctx_ok XS sg' b' sd /\ untouched XS si sd b b' /\
     forall L' rest res, lruns b' L' rest res ->
                         lruns b ((R ++ [LDone] ++ rest) :: L') (R ++ [LDone] ++ rest) (prepend out res).
 
@@ -1223,7 +1220,7 @@ Lemma round_head XS first cond incr body sg sg1 o1 si sn sc sd vc b t :
   ctx_ok XS sg b (cv_for_start bstate atom bash_conv si) -> fresh_flags XS si ->
   (incr <> None -> flag_set b (fname (b_for_counter si)) = negb first) ->
   exists H b2 a, cext (cv_for_start bstate atom bash_conv si) (add_line (LBreakUnless a) sc) (H ++ [LBreakUnless a]) /\ cl3 H /\
-    a = first_value bash_conv vc /\ ctx_ok XS sg1 b2 (add_line (LBreakUnless a) sc) /\ untouched XS si b b2 /\
+    a = first_value bash_conv vc /\ ctx_ok XS sg1 b2 (add_line (LBreakUnless a) sc) /\ untouched XS si sc b b2 /\
     cond_true b2 a = Some t /\ (b_for_counter si < b_for_counter sc)%nat /\
     (incr <> None -> flag_set b2 (fname (b_for_counter si)) = true) /\
     forall L rest res, lruns b2 L ([LBreakUnless a] ++ rest) res -> lruns b L (H ++ [LBreakUnless a] ++ rest) (prepend o1 res).
@@ -1245,7 +1242,7 @@ Proof.
   split; [exact (ctx_cext _ _ _ _ _ _ (cext_line _ sc) Hcc)|].
   assert (forall n, (forall k, n <> helper_name sn k) -> sh_get n bc = sh_get n bF) as Fr by (intros n Hh; apply F1; intros k _; apply Hh).
   split.
-  { apply (untouched_compose XS si b bF); [exact UF|]. intros n _ Hh _ _ _. apply Fr. intro k.
+  { apply (untouched_compose XS si sc b bF); [exact (untouched_gen XS si si sn sc [] b bF (cext_refl si) (expr_mono _ _ _ _ Ec) UF)|]. intros n _ Hh _ _ _. apply Fr. intro k.
     rewrite (helper_name_cext _ _ _ k (cext_trans _ _ _ _ _ (for_start_cext si) ERn)). apply Hh. }
   split; [rewrite text_bool in V1; exact (cond_of_text bc a t V1)|].
   split; [pose proof (expr_mono _ _ _ _ Ec); lia|].
@@ -1282,7 +1279,7 @@ Proof.
   exists (H ++ [LBreakUnless (first_value bash_conv vc)] ++ B), b2.
   split; [rewrite app_assoc; eapply cext_trans; [exact EH|exact EB]|].
   split; [apply cl3_app; [exact CH|]; apply cl3_app; [apply cl3_plain; reflexivity|exact CB]|].
-  split; [exact (ctx_cext _ _ _ _ _ _ EB Cc)|]. split; [exact U|].
+  split; [exact (ctx_cext _ _ _ _ _ _ EB Cc)|]. split; [exact (untouched_gen XS si si sc sd [] b b2 (cext_refl si) (cx_mono _ _ _ EB) U)|].
   intros L' rest res [f Hr]. rewrite prepend_nil || idtac.
   set (top := (H ++ [LBreakUnless (first_value bash_conv vc)] ++ B) ++ [LDone] ++ rest).
   assert (top = H ++ [LBreakUnless (first_value bash_conv vc)] ++ (B ++ [LDone] ++ rest)) as Et by (unfold top; rewrite <- !app_assoc; reflexivity).
@@ -1306,7 +1303,7 @@ Proof.
   split; [rewrite app_assoc; eapply cext_trans; [exact EH|exact EB]|].
   split; [apply cl3_app; [exact CH|]; apply cl3_app; [apply cl3_plain; reflexivity|exact CB]|].
   split; [exact Cc3|].
-  split; [apply (untouched_compose XS si b b2); [exact U|]; refine (untouched_weaken XS si sB _ b2 b3 EsB _ U3); unfold sB; cbn [add_line b_for_counter]; lia|].
+  split; [apply (untouched_compose XS si sd b b2); [exact (untouched_gen XS si si sc sd [] b b2 (cext_refl si) (cx_mono _ _ _ EB) U)|exact (untouched_gen XS si sB sd sd _ b2 b3 EsB (le_n _) U3)]|].
   intros L' rest res Hr.
   set (top := (H ++ [LBreakUnless a] ++ B) ++ [LDone] ++ rest).
   assert (top = H ++ [LBreakUnless a] ++ (B ++ [LDone] ++ rest)) as Et by (unfold top; rewrite <- !app_assoc; reflexivity).
@@ -1346,8 +1343,8 @@ Proof.
   exists (H ++ [LBreakUnless a] ++ B), b'.
   split; [exact ER|]. split; [exact CR'|]. split; [exact Cc'|].
   split.
-  { apply (untouched_compose XS si b b2); [exact U|]. apply (untouched_compose XS si b2 b3); [|exact U'].
-    refine (untouched_weaken XS si sB _ b2 b3 EsB _ U3). unfold sB. cbn [add_line b_for_counter]. lia. }
+  { apply (untouched_compose XS si sd b b2); [exact (untouched_gen XS si si sc sd [] b b2 (cext_refl si) (cx_mono _ _ _ EB) U)|].
+    apply (untouched_compose XS si sd b2 b3); [|exact U']. exact (untouched_gen XS si sB sd sd _ b2 b3 EsB (le_n _) U3). }
   intros L' rest res Hr.
   set (top := (H ++ [LBreakUnless a] ++ B) ++ [LDone] ++ rest).
   assert (top = H ++ [LBreakUnless a] ++ (B ++ [LDone] ++ rest)) as Et by (unfold top; rewrite <- !app_assoc; reflexivity).
@@ -1371,7 +1368,7 @@ Proof.
   destruct (if_construct XS sg c0 b0 elifs els bools sgm outm SN s u1 s1 b H1 Hfrag Hside Hv IHch Henv Hc Hfl) as (XI & b1 & EI & C1 & U1 & HkI).
   destruct (IHr s1 u s' b1 H2 Hfr Henvm C1 (fresh_cext _ _ _ _ EI Hfl)) as (X2 & b2 & E2 & C2 & U2 & Hk2).
   exists (XI ++ X2), b2. split; [eapply cext_trans; eassumption|]. split; [exact C2|].
-  split; [exact (untouched_trans XS s s1 XI b b1 b2 EI (for_counter_mono _ _ _ _ H1) U1 U2)|].
+  split; [exact (untouched_trans XS s s1 s' XI b b1 b2 EI (cx_mono _ _ _ E2) U1 U2)|].
   intros L rest res H. rewrite <- app_assoc. rewrite <- prepend_app. apply HkI. cbn [after]. exact (Hk2 L rest res H).
 Qed.
 
@@ -1385,7 +1382,7 @@ Proof.
   cbn [go_fix] in Ht. mb Ht as u1 s1 H1 H2. cbn [frag2_all] in Hf. apply andb_true_iff in Hf as [_ Hfr].
   destruct (if_construct XS sg c0 b0 elifs els bools sgm outm g s u1 s1 b H1 Hfrag Hside Hv IHch Henv Hc Hfl) as (XI & b1 & EI & C1 & U1 & HkI).
   destruct (go_e3 r (all_e3 r) Hfr _ _ _ H2) as (Xr & Er & [_ Dr] & _).
-  exists (XI ++ Xr), b1. split; [eapply cext_trans; eassumption|]. split; [exact (ctx_cext _ _ _ _ _ _ Er C1)|]. split; [exact U1|].
+  exists (XI ++ Xr), b1. split; [eapply cext_trans; eassumption|]. split; [exact (ctx_cext _ _ _ _ _ _ Er C1)|]. split; [exact (untouched_gen XS s s s1 s' [] b b1 (cext_refl s) (cx_mono _ _ _ Er) U1)|].
   intros L rest res H. rewrite <- app_assoc. apply HkI. apply after_skip; assumption.
 Qed.
 
@@ -1423,10 +1420,13 @@ Proof.
   exists ((X0 ++ [LForInit (flag_of si); LWhile] ++ R ++ [LDone]) ++ X3), b3.
   split; [eapply cext_trans; eassumption|]. split; [exact C3|].
   split.
-  { refine (untouched_trans XS s sE _ b b2 b3 EsE ME _ U3).
-    apply (untouched_compose XS s b b0); [exact U0|].
-    refine (untouched_weaken XS s si _ b0 b2 E0 M0 _).
-    apply (untouched_compose XS si b0 (sh_set f [] b0)); [apply untouched_set_flag; apply le_n|exact U2]. }
+  { pose proof (cx_mono _ _ _ ER) as MR. unfold sf in MR. rewrite for_start_counter in MR.
+    assert (b_for_counter sE = b_for_counter sd) as MsE by reflexivity.
+    refine (untouched_trans XS s sE s' _ b b2 b3 EsE (cx_mono _ _ _ E3) _ U3).
+    apply (untouched_compose XS s sE b b0); [refine (untouched_gen XS s s si sE [] b b0 (cext_refl s) _ U0); lia|].
+    refine (untouched_gen XS s si sE sE _ b0 b2 E0 (le_n _) _).
+    apply (untouched_compose XS si sE b0 (sh_set f [] b0)); [apply untouched_set_flag; unfold k0; lia|].
+    refine (untouched_gen XS si si sd sE [] _ b2 (cext_refl si) _ U2). lia. }
   intros L rest res H.
   pose proof (Hk3 L rest res H) as H3.
   pose proof (HkL L (X3 ++ rest) (prepend out res) H3) as HL.
